@@ -1361,8 +1361,21 @@ fn staged_case(family: &'static str, fam: TFam, index: u64, r: &mut Rng, max_t: 
     for &simp in &[SimpFunc::NoSimp, SimpFunc::CliffordSimp, SimpFunc::FullSimp] {
         for &split in &[false, true] {
             let res = guard(|| {
-                let mut dec = Decomposer::new(&g);
-                dec.with_simp(simp).with_split_graphs_components(split);
+                // the other construction path: empty() + set_target, and the alias setters
+                let mut dec = Decomposer::empty();
+                dec.set_target(g.clone());
+                match simp {
+                    SimpFunc::FullSimp => {
+                        dec.with_full_simp();
+                    }
+                    SimpFunc::CliffordSimp => {
+                        dec.with_clifford_simp();
+                    }
+                    SimpFunc::NoSimp => {
+                        dec.with_simp(SimpFunc::NoSimp);
+                    }
+                }
+                dec.with_split_graphs_components(split);
                 dec.decompose_standard();
                 dec.scalar()
             });
